@@ -116,7 +116,8 @@ func (h *VMHandler) Broadcast(message interface{}) error {
 	if err != nil {
 		return err
 	}
-	h.hub.Broadcast(data)
+	// (event handlers written in Glyph run on the hub's goroutine: never wait for the hub)
+	h.hub.enqueueBroadcast(data)
 	return nil
 }
 
@@ -126,7 +127,7 @@ func (h *VMHandler) BroadcastToRoom(room string, message interface{}) error {
 	if err != nil {
 		return err
 	}
-	h.hub.BroadcastToRoom(room, data, nil)
+	h.hub.enqueueRoomMessage(&RoomMessage{RoomName: room, Message: data})
 	return nil
 }
 
